@@ -120,4 +120,108 @@ MUTANTS = [
     # ---- C46.6 (wake-up discipline adopted from C03; added after seeded change C46-B)
     M("badsegnum-returns-without-loop", "src/allmydata/immutable/downloader/fetcher.py",
       "            # _do_loop\n            pass\n", "            # _do_loop\n            return\n", "C46.6"),
+    # ---- added after the mutation sweep (gap review) ------------------------------------------------
+    # C46.1: the retiring functions complete for the case they serve; cancel keeps the other requests
+    M("fetch-failed-assert-flipped", NODE,
+      "        assert sf is self._active_segment\n", "        assert sf is not self._active_segment\n", "C46.1"),
+    M("deliver-failure-test-negated", NODE,
+      "            if isinstance(result, Failure):\n", "            if not isinstance(result, Failure):\n", "C46.1"),
+    M("cancel-drops-the-other-requests", NODE,
+      "                                  if t[2] != cancel]", "                                  if t[2] == cancel]", "C46.1"),
+    M("benign-cancel-filter-identity", NODE,
+      "                                  if t[2] != cancel]", "                                  if not t[2] is cancel]", None),
+    M("benign-fetch-failed-explicit-raise", NODE,
+      "        assert sf is self._active_segment\n",
+      "        if sf is not self._active_segment:\n            raise AssertionError(sf)\n", None),
+    M("benign-deliver-failure-flag-hoisted", NODE,
+      "            if isinstance(result, Failure):\n",
+      "            failed = isinstance(result, Failure)\n            if failed:\n", None),
+    # C46.3: a query is only sent to a server taken from the list
+    M("finder-server-test-negated", FINDER,
+      "        if server:\n            self.send_request(server)\n", "        if not server:\n            self.send_request(server)\n",
+      "C46.3"),
+    M("finder-server-unbound-when-exhausted", FINDER,
+      "        server = None\n        try:\n", "        try:\n", "C46.3"),
+    M("benign-finder-server-is-not-none", FINDER,
+      "        if server:\n            self.send_request(server)\n",
+      "        if server is not None:\n            self.send_request(server)\n", None),
+    # C46.4: the read shrinks
+    M("seg-size-never-shrinks", SEG,
+      "        self._offset += len(desired_data)\n        self._size -= len(desired_data)\n",
+      "        self._offset += len(desired_data)\n", "C46.4"),
+    M("benign-seg-size-explicit-assignment", SEG,
+      "        self._size -= len(desired_data)\n", "        self._size = self._size - len(desired_data)\n", None),
+    # C46.5: _extract_requests splits the queue
+    M("extract-returns-the-other-segments", NODE,
+      "                  if segnum0 == segnum]", "                  if segnum0 != segnum]", "C46.5"),
+    M("extract-keeps-only-the-finished", NODE,
+      "                                  if t[0] != segnum]", "                                  if t[0] == segnum]", "C46.5"),
+    M("benign-extract-indexed-form", NODE,
+      "        retire = [(d,c,seg_ev)\n                  for (segnum0,d,c,seg_ev,lp) in self._segment_requests\n"
+      "                  if segnum0 == segnum]\n",
+      "        retire = [(t[1], t[2], t[3]) for t in self._segment_requests if segnum == t[0]]\n", None),
+    # C46.7: the fetcher waits only for something outstanding; its loop makes progress
+    M("fetcher-done-test-off-by-one", FETCH,
+      "        if len(set(self._blocks.keys())) >= k:\n", "        if len(set(self._blocks.keys())) > k:\n", "C46.7"),
+    M("fetcher-exhausted-test-inverted", FETCH,
+      "                       | set(self._overdue_share_map.keys())\n                       ) < k:\n",
+      "                       | set(self._overdue_share_map.keys())\n                       ) >= k:\n", "C46.7"),
+    M("fetcher-while-inclusive", FETCH,
+      "                  | set(self._active_share_map.keys())\n                  ) < k:\n",
+      "                  | set(self._active_share_map.keys())\n                  ) <= k:\n", "C46.7"),
+    M("fetcher-no-more-shares-negated", FETCH,
+      "            if self._no_more_shares:\n", "            if not self._no_more_shares:\n", "C46.7"),
+    M("fetcher-spins-when-nothing-sent", FETCH,
+      "            if sent_something:\n", "            if not sent_something:\n", "C46.7"),
+    M("fetcher-raises-limit-unasked", FETCH,
+      "            if want_more_diversity:\n", "            if not want_more_diversity:\n", "C46.7"),
+    M("fetcher-waits-without-asking", FETCH,
+      "            # progress\n            self._ask_for_more_shares()\n", "            # progress\n", ["C46.7", "C46.6"]),
+    M("fetcher-idle-while-running", FETCH,
+      "        if not self._running:\n            return\n        numsegs, authoritative",
+      "        if self._running:\n            return\n        numsegs, authoritative", ["C46.7", "C46.6"]),
+    M("benign-fetcher-done-count-hoisted", FETCH,
+      "        if len(set(self._blocks.keys())) >= k:\n",
+      "        have = len(set(self._blocks.keys()))\n        if not have < k:\n", None),
+    M("benign-fetcher-exhausted-guard-inverted", FETCH,
+      "            if self._no_more_shares:\n"
+      "                # But there are no more shares to be had. If we're going to\n"
+      "                # succeed, it will be with the shares we've already seen.\n"
+      "                # Will they be enough?\n"
+      "                if len(set(self._blocks.keys())\n"
+      "                       | set(self._active_share_map.keys())\n"
+      "                       | set(self._overdue_share_map.keys())\n"
+      "                       ) < k:\n"
+      "                    # nope. bail.\n"
+      "                    self._no_shares_error() # this calls self.stop()\n"
+      "                    return\n",
+      "            if not self._no_more_shares:\n"
+      "                return\n"
+      "            reachable = (set(self._blocks.keys()) | set(self._active_share_map.keys())\n"
+      "                         | set(self._overdue_share_map.keys()))\n"
+      "            if k > len(reachable):\n"
+      "                self._no_shares_error() # this calls self.stop()\n"
+      "                return\n", None),
+    M("benign-finder-try-else-form", FINDER,
+      "        server = None\n        try:\n            if self._servers:\n                server = next(self._servers)\n"
+      "        except StopIteration:\n            self._servers = None\n\n        if server:\n"
+      "            self.send_request(server)\n"
+      "            # we loop again to get parallel queries. The check above will\n"
+      "            # prevent us from looping forever.\n"
+      "            eventually(self.loop)\n            return\n",
+      "        if self._servers:\n            try:\n                server = next(self._servers)\n"
+      "            except StopIteration:\n                self._servers = None\n            else:\n"
+      "                self.send_request(server)\n                eventually(self.loop)\n                return\n", None),
+    M("benign-fetcher-while-true-form", FETCH,
+      "        while len(set(self._blocks.keys())\n                  | set(self._active_share_map.keys())\n"
+      "                  ) < k:\n",
+      "        while True:\n            if not (len(set(self._blocks.keys()) | set(self._active_share_map.keys())) < k):\n"
+      "                break\n", None),
+    # C46.6: share bookkeeping adopted from C03.2 / C03.7
+    M("dead-share-stays-active", FETCH,
+      "            if self._active_share_map.get(shnum) is share:\n",
+      "            if self._active_share_map.get(shnum) is not share:\n", "C46.6"),
+    M("picked-share-never-started", FETCH,
+      "            self._shares_from_server.add(server, sh)\n            self._start_share(sh, shnum)\n",
+      "            self._shares_from_server.add(server, sh)\n", "C46.6"),
 ]
